@@ -71,6 +71,51 @@ pub struct Exec {
     pub single_write: bool,
     /// HRead keeps reading until the buffer is full or EOF (short reads are legal; C15 compares data)
     pub fill_reads: bool,
+    /// path values yielded by listings and walks, by (fs, path text) - see KEEP_PATHS
+    pub kept: BTreeMap<(u8, String), VfsPath>,
+}
+
+thread_local! {
+    /// per-run executor modes (set by `set_run_modes` from the run's `extra` map):
+    /// IO_STYLE 1 = handle reads/writes use the vectored calls; KEEP_PATHS = path values yielded by
+    /// read_dir / walk_dir are kept and used as receivers instead of freshly joined ones
+    pub static IO_STYLE: std::cell::Cell<u8> = const { std::cell::Cell::new(0) };
+    pub static KEEP_PATHS: std::cell::Cell<bool> = const { std::cell::Cell::new(false) };
+    static IO_CALLS: std::cell::Cell<u32> = const { std::cell::Cell::new(0) };
+}
+
+/// in the vectored style every other handle call is vectored (plain and vectored calls mix on
+/// one handle); a pure function of the run's call sequence
+pub fn vectored_now() -> bool {
+    if IO_STYLE.with(|c| c.get()) != 1 {
+        return false;
+    }
+    IO_CALLS.with(|c| {
+        c.set(c.get().wrapping_add(1));
+        c.get() % 2 == 1
+    })
+}
+
+pub fn set_run_modes(extra: &BTreeMap<String, String>) {
+    IO_STYLE.with(|c| c.set(extra.get("io_style").and_then(|v| v.parse().ok()).unwrap_or(0)));
+    KEEP_PATHS.with(|c| c.set(extra.get("keep_paths").map(|v| v == "1").unwrap_or(false)));
+    IO_CALLS.with(|c| c.set(0));
+    crate::observe::clear_kept_snap();
+}
+
+/// one vectored read into a buffer of `buf.len()` bytes split into two slices
+pub fn read_vectored_once(h: &mut dyn Read, buf: &mut [u8]) -> std::io::Result<usize> {
+    let mid = buf.len() / 3;
+    let (a, b) = buf.split_at_mut(mid);
+    let mut sl = [std::io::IoSliceMut::new(a), std::io::IoSliceMut::new(b)];
+    h.read_vectored(&mut sl)
+}
+
+/// one vectored write of `b` as three slices (the middle one empty)
+pub fn write_vectored_once(h: &mut dyn Write, b: &[u8]) -> std::io::Result<usize> {
+    let mid = b.len() / 3;
+    let sl = [std::io::IoSlice::new(&b[..mid]), std::io::IoSlice::new(&[]), std::io::IoSlice::new(&b[mid..])];
+    h.write_vectored(&sl)
 }
 
 pub fn resolve(root: &VfsPath, s: &str) -> Result<VfsPath, VfsError> {
@@ -139,7 +184,8 @@ pub fn drain(h: &mut dyn Read, buf_size: usize) -> std::io::Result<Vec<u8>> {
 fn write_all_counted(h: &mut dyn Write, mut b: &[u8]) -> std::io::Result<u64> {
     let mut total = 0u64;
     while !b.is_empty() {
-        match h.write(b) {
+        let r = if vectored_now() { write_vectored_once(h, b) } else { h.write(b) };
+        match r {
             Ok(0) => return Err(std::io::Error::new(std::io::ErrorKind::WriteZero, "write returned 0")),
             Ok(n) => {
                 if n > b.len() {
@@ -158,11 +204,26 @@ fn write_all_counted(h: &mut dyn Write, mut b: &[u8]) -> std::io::Result<u64> {
 impl Exec {
     pub fn new(roots: Vec<VfsPath>) -> Exec {
         let n = roots.len();
-        Exec { roots, slots: BTreeMap::new(), phys_dirs: vec![None; n], single_write: false, fill_reads: false }
+        Exec { roots, slots: BTreeMap::new(), phys_dirs: vec![None; n], single_write: false, fill_reads: false, kept: BTreeMap::new() }
     }
 
     fn path(&self, p: &P) -> Result<VfsPath, VfsError> {
-        resolve(&self.roots[p.fs as usize], &p.s)
+        let vp = resolve(&self.roots[p.fs as usize], &p.s)?;
+        if !self.kept.is_empty() {
+            if let Some(k) = self.kept.get(&(p.fs, vp.as_str().to_string())) {
+                // an equal path value that a listing or walk handed out earlier
+                if *k == vp {
+                    return Ok(k.clone());
+                }
+            }
+        }
+        Ok(vp)
+    }
+
+    fn keep(&mut self, fs: u8, c: &VfsPath) {
+        if KEEP_PATHS.with(|k| k.get()) && self.kept.len() < 256 {
+            self.kept.insert((fs, c.as_str().to_string()), c.clone());
+        }
     }
 
     pub fn exec(&mut self, op: &Op) -> Res {
@@ -185,8 +246,23 @@ impl Exec {
                 Ok(Out::Meta(meta_out(&m)))
             }
             Op::ReadDir(p) => {
-                let it = self.path(p).map_err(v)?.read_dir().map_err(v)?;
-                Ok(Out::Names(it.map(|c| c.as_str().to_string()).collect()))
+                let mut it = self.path(p).map_err(v)?.read_dir().map_err(v)?;
+                let _ = it.size_hint();
+                let mut names = vec![];
+                while let Some(c) = it.next() {
+                    names.push(c.as_str().to_string());
+                    self.keep(p.fs, &c);
+                }
+                // a finished iterator stays a legal value: asking it again, for its size hint, or
+                // extending a collection from it must not panic (items are not judged here)
+                let _ = it.size_hint();
+                let _ = it.next();
+                let _ = it.size_hint();
+                let mut rest: std::collections::HashSet<String> = std::collections::HashSet::new();
+                rest.extend(it.by_ref().take(4).map(|c| c.as_str().to_string()));
+                let mut rest2: std::collections::HashSet<String> = std::collections::HashSet::new();
+                rest2.extend(it.map(|c| c.as_str().to_string()).take(4));
+                Ok(Out::Names(names))
             }
             Op::ReadFile(p, buf) => {
                 let mut h = self.path(p).map_err(v)?.open_file().map_err(v)?;
@@ -199,7 +275,10 @@ impl Exec {
                 let mut items = vec![];
                 for x in it {
                     match x {
-                        Ok(c) => items.push(Ok(c.as_str().to_string())),
+                        Ok(c) => {
+                            items.push(Ok(c.as_str().to_string()));
+                            self.keep(p.fs, &c);
+                        }
                         Err(e) => items.push(Err(err_info(&e))),
                     }
                     if items.len() > 100_000 {
@@ -299,6 +378,19 @@ impl Exec {
                 self.slots.insert(*slot, Slot::W(h));
                 Ok(Out::Unit)
             }
+            Op::HRead(slot, n) if read_exact_len(*n).is_some() => match self.slots.get_mut(slot) {
+                Some(Slot::R(h)) => {
+                    let mut buf = vec![0u8; read_exact_len(*n).unwrap()];
+                    match h.read_exact(&mut buf) {
+                        Ok(()) => Ok(Out::Read(buf)),
+                        Err(e) => {
+                            let _ = h.seek(std::io::SeekFrom::End(0));
+                            Err(io_err_info(&e))
+                        }
+                    }
+                }
+                _ => Ok(Out::Unit),
+            },
             Op::HRead(slot, n) if *n == READ_TO_END => match self.slots.get_mut(slot) {
                 Some(Slot::R(h)) => {
                     let mut buf = Vec::new();
@@ -307,12 +399,15 @@ impl Exec {
                 }
                 _ => Ok(Out::Unit),
             },
-            Op::HRead(slot, n) if self.fill_reads && *n > 0 => match self.slots.get_mut(slot) {
+            // (in the vectored style a backend without its own read_vectored fills only the first
+            // slice - a legal short read - so the buffer is always filled up before values are compared)
+            Op::HRead(slot, n) if (self.fill_reads || IO_STYLE.with(|c| c.get()) == 1) && *n > 0 => match self.slots.get_mut(slot) {
                 Some(Slot::R(h)) => {
                     let mut buf = vec![0u8; *n];
                     let mut got = 0;
                     while got < *n {
-                        match h.read(&mut buf[got..]) {
+                        let r = if vectored_now() { read_vectored_once(&mut **h, &mut buf[got..]) } else { h.read(&mut buf[got..]) };
+                        match r {
                             Ok(0) => break,
                             Ok(k) => got += k.min(*n - got),
                             Err(e) if e.kind() == std::io::ErrorKind::Interrupted => continue,
@@ -328,7 +423,8 @@ impl Exec {
                 Some(Slot::R(h)) => {
                     let mut buf = vec![0u8; *n];
                     let k = loop {
-                        match h.read(&mut buf) {
+                        let r = if vectored_now() { read_vectored_once(&mut **h, &mut buf) } else { h.read(&mut buf) };
+                        match r {
                             Err(e) if e.kind() == std::io::ErrorKind::Interrupted => continue,
                             other => break other,
                         }
@@ -362,7 +458,8 @@ impl Exec {
                 Some(Slot::W(h)) => {
                     let b = pl.bytes();
                     let r = loop {
-                        match h.write(&b) {
+                        let r = if vectored_now() { write_vectored_once(&mut **h, &b) } else { h.write(&b) };
+                        match r {
                             Err(e) if e.kind() == std::io::ErrorKind::Interrupted => continue,
                             other => break other,
                         }
